@@ -638,8 +638,17 @@ impl Client {
             .map_err(|_| poisoned_lock_error("client writer"))?;
         #[cfg(feature = "verif-hooks")]
         crate::verif_hooks::probe("client.write.locked", msg.header.id);
-        write_message(&mut *writer, msg)?;
-        writer.flush()?;
+        let written = write_message(&mut *writer, msg)
+            .and_then(|()| writer.flush().map_err(RepeError::from));
+        if let Err(err) = written {
+            // The frame may be partly on the wire (write timeout, stalled or
+            // closed peer) or partly in the buffer; anything written after it
+            // would be parsed by the peer as the rest of that frame. Fail the
+            // connection: later writes error out and the reader fails every
+            // in-flight call.
+            let _ = writer.get_ref().shutdown(Shutdown::Both);
+            return Err(err);
+        }
         #[cfg(feature = "verif-hooks")]
         crate::verif_hooks::probe("client.written", msg.header.id);
         Ok(())
